@@ -76,6 +76,14 @@ def canon(n):
     if not isinstance(n, dict):
         return n
     t = n.get("t")
+    if t == "Assign":
+        # `p = p - e` -> `p -= e` for a place p that is evaluated without side effects
+        r = n["right"]
+        while isinstance(r, dict) and r.get("t") == "Paren":
+            r = r["expr"]
+        if isinstance(r, dict) and r.get("t") == "Binary" and r.get("op") in ("+", "-", "*", "/", "%", "&", "|", "^", "<<", ">>") \
+                and _eq(r["left"], n["left"]) and not _has(n["left"], ("Call", "MethodCall", "MacroExpr", "Index")):
+            return {"t": "Binary", "sp": n["sp"], "op": r["op"] + "=", "left": n["left"], "right": r["right"]}
     if t == "If":
         c0 = n["cond"]
         while isinstance(c0, dict) and c0.get("t") == "Paren":
@@ -142,9 +150,9 @@ def _flip(b):
 
 
 def _m(p, n, env):
-    if isinstance(p, dict) and p.get("t") in ("If", "Match"):
+    if isinstance(p, dict) and p.get("t") in ("If", "Match", "Assign"):
         p = canon(p)
-    if isinstance(n, dict) and n.get("t") in ("If", "Match"):
+    if isinstance(n, dict) and n.get("t") in ("If", "Match", "Assign"):
         n = canon(n)
     p, n = _flip(p), _flip(n)
     if isinstance(p, dict):
